@@ -21,6 +21,7 @@ is scheduling glue that decomposes into those ops between the `arrive` and the `
                                 the message is put into the connection's stream; its reader task takes it when it is
                                 free (and the connection is not closing) and awaits `_perform_message_callback`
   open <gate>                   the driving task opens a gate
+  close <conn>                  the driving task awaits `connection.disconnect()`
   cancelfut <tag> | canceltask <tag>      canceltask on an `execute` that is still suspended in `send`: the
                                 CancelledError is thrown into `send` when the task next runs (modes 2,3: its
                                 already scheduled continuation; mode 4: a wake-up scheduled now) = `sendFails k true`
@@ -471,6 +472,13 @@ def handle (d : DS) (line : String) : DS × String :=
     | some (c, μ, progs) =>
       let d := { d with inbox := d.inbox ++ [(c, μ, progs)] }
       let d := if d.parked.contains c then { d with parked := d.parked.erase c, rq := d.rq ++ [.reader c] } else d
+      (d, snapshot d)
+    | none => (d, "bad-op")
+  | ["close", c] =>
+    -- the driving task itself awaits `connection.disconnect()`
+    match parseConn c with
+    | some (cid, _) =>
+      let d := if d.s.closing.contains cid then d else prim d (.connState cid true)
       (d, snapshot d)
     | none => (d, "bad-op")
   | ["open", g] =>
